@@ -126,3 +126,15 @@ C12L = induction(
     "filter_sd(filter_kept(A, D, j), len(filter_kept(A, D, j))) == filter_sd(A, j)",
     uses_step=[("stab.filter_sd", {"SA": "filter_kept(A, D, j - 1)", "T": "[A[j - 1]]", "j": "len(filter_kept(A, D, j - 1))"})],
 )
+
+STAB += prefix_stability("sumden", {"XS": "Seq[Sym]", "env": "Env", "j": "Int"}, "XS", "Sym")
+C16L = []
+C16L += induction("C16.count_len", {"ORD": "Seq[Sing]", "expr": "Sym"},
+                  "len(cond_list(ORD, expr, j)) == count_fin(ORD, j) and count_fin(ORD, j) >= 0")
+C16L += induction(
+    "C16.sum_of_conditionals", {"ORD": "Seq[Sing]", "expr": "Sym", "env": "Env"},
+    "implies(off_all(ORD, env, j), sumden(cond_list(ORD, expr, j), env, len(cond_list(ORD, expr, j))) == count_fin(ORD, j) * den(expr, env))",
+    uses_step=[("stab.sumden", {"XS": "cond_list(ORD, expr, j - 1)",
+                                "T": "[Conditional(Eq(ORD[j - 1].symbol, ORD[j - 1].value), ORD[j - 1].replacement, expr)]",
+                                "env": "env", "j": "len(cond_list(ORD, expr, j - 1))"})],
+)
